@@ -2,7 +2,7 @@
 """Regenerates /verif/MANIFEST.json from the table below (single source of truth)."""
 import json, os
 
-RACE = {"C07","C08","C10","C11","C12","C13","C18","C19"}
+RACE = {"C07","C08","C09","C10","C11","C12","C13","C16","C18","C19"}
 
 # id -> dict(level, text, note, technique, design_ref)   (only properties whose check is built and registered)
 CHECKS = {
@@ -42,6 +42,23 @@ CHECKS["C06"] = dict(level="exploration",
    note="Trusted: the value generator's construction invariant, the reference coercer (spec input coercion for JSON transport). List indexes in rejection paths are counted, not judged. Operations refused for reasons unrelated to variables are left to C04.",
    technique="runtime monitor with ground truth by construction and coercion-targeted mutation, cross-checked by a reference coercer",
    design_ref="DESIGN.md §6 C06")
+
+CHECKS["C14"] = dict(level="exploration",
+   text="Generated federation layouts x protected-coordinate sets P x valid operations (queries, mutations, @defer) x decision functions d: EVERY function over the protected coordinate families the operation touches when there are <=4 of them, seeded ones beyond (all-allow, all-deny, single family, halves, exactly the entity-fetched fields, exactly the hidden @requires/@key inputs, only non-null / root / leaf / composite / key fields), each run in per-field, up-front (pre-fetch) and combined authorizer modes through the real ExecutionEngine over semantic subgraphs (~69k executions per quick run). Every response position (initial response and every deferred payload, merged by the incremental-delivery rules) is judged against provenance from an independent reference executor: no non-null value at a position whose coordinate was denied, the denial reported as an error at that position or swallowed by a reported denial above it, null propagation as for any other null, sentinel tags of denied String/ID values never in the response bytes. Every recorded subgraph request is parsed and judged by the request rule (not sent when all of its root fields are denied; mutation not sent when any is); the loader rule is additionally ENUMERATED on hand-built plans (1-3 root fields x every protected subset x every decision x nullable/non-null x mode).",
+   note="Trusted: ref executor/coercer/universe (gqlparser), the fed layout generator, semantic subgraphs and recording transport, the frame-merge rules and request-text parser in props/c14. Decisions are data-independent; P and d are closed over interface families wherever a field can be selected through an interface; fields computed by @requires from a denied input are outside the statement (counted). Subscription updates are not driven (the fed rig has no subscriptions); sentinels cover String and ID fields only.",
+   technique="runtime monitoring with a reference-model oracle over response positions and recorded subgraph requests, sentinel data, exhaustive decision functions on small coordinate sets, enumerated loader-rule sub-space",
+   design_ref="DESIGN.md §6 C14")
+
+CHECKS["C16"] = dict(level="exploration",
+   text="Differential runtime monitor over generated request HISTORIES (about 350 per quick run; 10-16 requests each: base operations plus derived ones - exact repeats, other lookup ids from a small entity pool, other variable values, one leaf added or dropped, roots reordered or extended, a nullable variable flipped between omitted and explicit null) on two real ExecutionEngines over the same static hash-defined universe: one with a recording, fault-injecting implementation of the repository's cache interface attached, one without. Every response with the cache must equal the cache-less response (4000+ compared after a served full hit, 1000+ under injected Get/Set errors, partial answers and evictions per quick run). Every SetMany item is attributed to the subgraph response it came from and judged by an independent RFC 9111 reference on the Cache-Control header that response carried (generated header grammar: order, case, whitespace, quoted arguments, duplicates, unknown directives, malformed numbers, several header lines) and on its status / errors (faults: 201-599 statuses with the body kept, data with errors, errors only, null entity): stored => 2xx, error-free, explicitly public, no no-store/no-cache/private, ttl <= s-maxage/max-age else default. The storability unit caching.TTL is additionally driven directly with ~200k generated headers plus an exhaustive small directive space. Concurrent histories (3-6 goroutines sharing one cache) run under the race detector.",
+   note="Trusted: the fed rig (layout generator, semantic subgraphs, ref.Universe), gqlparser, the reference Cache-Control tokeniser (props/c16/ccref.go), the recording cache, the cache-less engine as reference for response content. Malformed headers are judged in the safe direction only (a refusal word outside a closed quoted-string must prevent storing); TTL expiry is recorded, not simulated; @defer, subscriptions, mutations not covered.",
+   technique="differential execution (engine with cache vs without) over generated histories + boundary monitor on Cache.GetMany/SetMany with a reference Cache-Control parser, cache/subgraph fault injection, -race",
+   design_ref="DESIGN.md §6 C16")
+CHECKS["C17"] = dict(level="exploration",
+   text="For every generated full-feature schema (gen.GenSchema enriched with list nesting up to 4, regenerated default values of every input kind incl. nested objects/lists/enums/null/block strings/escapes, custom directives defined and applied on every location, repeatable directives, deprecations with every reason spelling, @specifiedBy, interfaces implementing interfaces, custom and keyword-spelled root names, extensions) three observation points are compared with an independent reference built from gqlparser's view of the same SDL: (1) introspection.Generator's data lists exactly the types, fields, arguments, default values (compared as parsed values), enum values, interfaces, possible types, directives and deprecations; (2) about 35 introspection queries per schema (the two standard full queries, __type for every named type and unknown names, generated partial __schema/__type queries with aliases, fragments, includeDeprecated literal/variable, ofType depth, root __typename) executed through the real ExecutionEngine equal a reference introspection resolver's answers, order-insensitively; (3) converting the introspection JSON back with JsonConverter and printing it yields SDL that gqlparser loads to an equivalent type system. 640 schemas quick, 10000 thorough.",
+   note="Trusted: gqlparser v2.5.30 (schema/query loading, value parsing), the reference executor and the reference introspection resolver (props/c17/refintro.go), gen.GenSchema, astprinter for the round-trip print. Not judged: descriptions, isOneOf, the __* meta types in types/__type(name:) (the repository omits them), null vs [] for empty lists. No user data source next to the introspection one.",
+   technique="differential runtime monitoring against a reference introspection (gqlparser) + round-trip check",
+   design_ref="DESIGN.md §6 C17")
 
 CHECKS["C18"] = dict(level="exploration",
    text="The real subscriptionclient runs under the race detector against an in-process scripted GraphQL-over-WebSocket (both subprotocols) / SSE upstream: 520 (quick) / 20800 (thorough) seed-determined scenarios cover cancels in every dial, init and subscribe window (windows opened from the server side by withholding the upgrade or connection_ack, and at the ws.subscribe.beforeWrite verif yield point), per-id terminals, interleaved delivery for 3-20 ids, option-tuple variants differing in exactly one component, idle close, abrupt drop and ping silence, plus a 2-64-subscriber stress tier. Every delivered message (origin-tagged payload) is checked against the upstream's own send record; every non-cancelling subscriber is compared with a no-cancel control run; sharing legality comes from the upstream's per-connection record; connection counts return to zero at quiescence (bounded progress, watchdog => inconclusive).",
